@@ -57,6 +57,8 @@ rv('T1', r"(ConvertUnit|FilterUnit)::<'a, R>::read_entry\|err\|\?read_entry", 'i
    'fails (confirmed by findings/demo/tests/convert_read_entry_spins.rs: the error-skipping loop ends for all 65536 truncations tried)')
 rv('T4', r'^write::unit::Unit::add_reserved\|loop', 'invariant', 'counter loop: entries.len() grows by one push per iteration until it reaches self.reserved (an in-memory count)')
 rv('T4', r"^write::unit::convert::ConvertUnitSection::<'a, R>::new_with_filter\|loop#2", 'invariant', 'index loop: `end` increases by one per iteration and the loop ends when offsets.get(end) is None')
+rv('R1', r'^read::unit::parse_attribute\|DebugInfoOffset#[23]$', 'contract',
+   'DW_FORM_ref_sup4 / DW_FORM_ref_sup8 refer to the supplementary object file: the value is an offset in ANOTHER file\'s .debug_info and must not be relocated against this one')
 # ---- T3 -----------------------------------------------------------------------------------
 rv('T3', r'^read::dwarf::Dwarf::<T>::borrow <-> ', 'invariant',
    INV + 'recursion follows the `sup` chain of Arc<Dwarf> objects that the caller linked with set_sup; its depth is the number of files, not input bytes')
@@ -260,6 +262,10 @@ rv('N', r'^read::value::', 'reinterpret',
    'generic values are masked to the address size before sign extension')
 rv('N', r'^write::op::convert::<impl write::op::Expression>::from \| cast i64->usize', 'reinterpret',
    'branch displacement added with wrapping_add to the operation offset; the result must be found by binary_search among the decoded operation offsets or the conversion fails with InvalidBranchTarget')
+rv('N', r'^leb128::write::Leb128::signed \| cast i64->u8 \| val as u8', 'reinterpret', 'low 7 bits of the value: masked with 0x7f in the same expression (LEB128 encoding step)')
+rv('N', r'^leb128::write::Leb128::(signed|unsigned) \| cast usize->u8 \| len as u8', 'invariant', 'number of LEB128 bytes of a 64-bit value: at most 10')
+rv('N', r'^write::writer::Writer::write_eh_pointer_data \| cast u64->i64', 'reinterpret', REINT + 'signed pointer encodings (sdata2/4/8, sleb128) of an address value; write_sdata range-checks the narrower widths')
+rv('N', r'^write::writer::Writer::write_sdata \| cast i(8|16|32|64)->u(8|16|32|64)', 'reinterpret', REINT + 'the narrower signed value was produced by the cast-and-compare-back check two lines above')
 kf('N', r'^write::cfi::convert::', ['C12', 'C01'],
    'write::cfi conversion narrows operands with plain `as i32` / `as u32` / `as u8` / `as i8` casts ("TODO: validate integer type conversions"): e.g. DW_CFA_def_cfa_offset 0x1_0000_0020 '
    'is converted to a CFA offset of 32 without any error (silent truncation)', 'findings/demo/tests/cfi_convert_truncation.rs')
